@@ -12,6 +12,13 @@ CHECKS = {
         note="Trusts the reference model in vf/props/c13.py (plain list + key function) and the completeness of the public observation (list, len, reversed, keys, items, per-key get/[]/index_for_key/in, membership, count).",
         ref="DESIGN.md section 4, C13",
     ),
+    "C14": dict(
+        level="exploration",
+        technique="model-based property testing: bounded-exhaustive op enumeration + Hypothesis op sequences + atheris fuzzing against a reference key->item dict model",
+        text="Every single operation (incl. every binary operator against KeyedSet and built-in set operands) from every KeyedSet of <= 3 items over 5 item universes (falsy, unhashable, keyed spec items) x enforce_item_equivalence x typed, 2-op sequences, Hypothesis op sequences up to 25 ops and (thorough) atheris campaigns, compared after every step with a reference dict key->item under the documented membership rule. Bounded/sampled search, not a proof.",
+        note="Trusts the reference model in vf/props/c14.py and the operand restrictions listed in the evidence assumptions (shapes where item-equality and key algebra could legitimately differ are not generated).",
+        ref="DESIGN.md section 4, C14",
+    ),
 }
 
 NOT_YET = "check not built yet in this revision (see DESIGN.md section 9 for the order); nothing is claimed"
